@@ -1,61 +1,460 @@
-//! engine `ffi` (C13) — under construction; `bvh ffi probe` confirms D10/D11
+//! engine `ffi` (C13): the exported C functions of brotli::ffi::{compressor, multicompress} against
+//! the Rust API, call by call.
+//!
+//! A *history* = allocator kind (default | counting custom callbacks) + parameter list + optional
+//! custom dictionary + calls (stream via CompressStream or CompressStreaming, with/without a
+//! total_out pointer, null pointers whenever a count is 0; take_output; has_more; is_finished) +
+//! destroy.  The same history is run on a twin `BrotliEncoderStateStruct<StandardAlloc>` through
+//! the Rust API.  Per call the oracle compares: return value, bytes produced, input consumed,
+//! both cursor pairs (pointer advance = decrease of the available counter = the Rust offsets),
+//! `*total_out` = bytes delivered so far (pushed + taken), has_more / is_finished; after destroy
+//! the counting allocator must have no live block.  One-shot BrotliEncoderCompress, CompressMulti
+//! (desired threads 0..32) and the work-pool calls are compared with their Rust counterparts.
+//! Correspondence (`ffi S …`, `ffi M n`, `ffi O n c`): the Lean model of the wrappers gets what
+//! the C caller passed and what the twin Rust call answered, and must predict every out-value.
+//! Everything runs in child processes (a panic that crosses `extern "C"` aborts): a child that
+//! dies is reported as `ffi:abort` with the history it was running.
+//! Non-trivial history (rule): at least one stream call with a zero count / null pointer, a
+//! take_output, or a call that delivered no output.
+use crate::prng::Rng;
 use crate::util::*;
+use alloc_no_stdlib::SliceWrapper;
+use alloc_stdlib::StandardAlloc;
+use brotli::enc::backward_references::{BrotliEncoderParams, UnionHasher};
+use brotli::enc::encode::{BrotliEncoderOperation as ROp, BrotliEncoderParameter as P, BrotliEncoderStateStruct};
+use brotli::enc::threading::{Owned, SendAlloc};
 use brotli::ffi::compressor as c;
-use brotli::enc::encode::BrotliEncoderParameter as P;
+use brotli::ffi::multicompress as m;
+use brotli_decompressor::ffi::interface::c_void;
+use std::sync::atomic::{AtomicIsize, AtomicUsize, Ordering};
 
-pub fn probe() {
+// ------------------------------------------------------------------ counting allocator callbacks
+#[repr(C)]
+pub struct Counter { live: AtomicIsize, allocs: AtomicUsize, bad_free: AtomicUsize, id: usize }
+const HDR: usize = 64;
+extern "C" fn c_alloc(opaque: *mut c_void, size: usize) -> *mut c_void {
     unsafe {
-        // ---- D10: total_out reset on a call that delivers nothing
-        let st = c::BrotliEncoderCreateInstance(None, None, core::ptr::null_mut());
-        c::BrotliEncoderSetParameter(st, P::BROTLI_PARAM_QUALITY, 5);
-        c::BrotliEncoderSetParameter(st, P::BROTLI_PARAM_LGWIN, 18);
-        let data: Vec<u8> = (0..5000u32).map(|i| (i.wrapping_mul(2654435761) >> 13) as u8).collect();
-        let mut out = vec![0u8; 1 << 16];
-        let mut delivered = 0usize;
-        let mut ip = data.as_ptr(); let mut ai = data.len();
-        let mut op = out.as_mut_ptr(); let mut ao = out.len();
-        let mut total: usize = 777;
-        let r = c::BrotliEncoderCompressStream(st, c::BrotliEncoderOperation::BROTLI_OPERATION_FLUSH, &mut ai, &mut ip, &mut ao, &mut op, &mut total);
-        delivered = out.len() - ao;
-        println!("D10 call1 FLUSH 5000 bytes: ret={} delivered={} total_out={}", r, delivered, total);
-        // a call that delivers nothing: PROCESS with 10 bytes of input
-        let more = [1u8; 10];
-        let mut ip2 = more.as_ptr(); let mut ai2 = more.len();
-        let r = c::BrotliEncoderCompressStream(st, c::BrotliEncoderOperation::BROTLI_OPERATION_PROCESS, &mut ai2, &mut ip2, &mut ao, &mut op, &mut total);
-        println!("D10 call2 PROCESS 10 bytes: ret={} delivered so far={} total_out={}   (expected total_out == delivered)", r, out.len() - ao, total);
-        let mut ai3 = 0usize; let mut ip3: *const u8 = core::ptr::null();
-        let r = c::BrotliEncoderCompressStream(st, c::BrotliEncoderOperation::BROTLI_OPERATION_FINISH, &mut ai3, &mut ip3, &mut ao, &mut op, &mut total);
-        println!("D10 call3 FINISH: ret={} delivered so far={} total_out={}", r, out.len() - ao, total);
-        let r = c::BrotliEncoderCompressStream(st, c::BrotliEncoderOperation::BROTLI_OPERATION_FINISH, &mut ai3, &mut ip3, &mut ao, &mut op, &mut total);
-        println!("D10 call4 FINISH again (nothing left): ret={} delivered so far={} total_out={}", r, out.len() - ao, total);
-        c::BrotliEncoderDestroyInstance(st);
+        let ctr = opaque as *mut Counter;
+        if !ctr.is_null() { (*ctr).live.fetch_add(1, Ordering::SeqCst); (*ctr).allocs.fetch_add(1, Ordering::SeqCst); }
+        let lay = std::alloc::Layout::from_size_align(size + HDR, 64).unwrap();
+        let p = std::alloc::alloc_zeroed(lay);
+        *(p as *mut usize) = size;
+        *((p as *mut usize).add(1)) = opaque as usize;
+        p.add(HDR) as *mut c_void
+    }
+}
+extern "C" fn c_free(opaque: *mut c_void, ptr: *mut c_void) {
+    unsafe {
+        if ptr.is_null() { return; }
+        let base = (ptr as *mut u8).sub(HDR);
+        let size = *(base as *mut usize);
+        let owner = *((base as *mut usize).add(1));
+        let ctr = opaque as *mut Counter;
+        if !ctr.is_null() { (*ctr).live.fetch_sub(1, Ordering::SeqCst); if owner != opaque as usize { (*ctr).bad_free.fetch_add(1, Ordering::SeqCst); } }
+        std::alloc::dealloc(base, std::alloc::Layout::from_size_align(size + HDR, 64).unwrap());
+    }
+}
+fn new_counter(id: usize) -> Box<Counter> { Box::new(Counter { live: AtomicIsize::new(0), allocs: AtomicUsize::new(0), bad_free: AtomicUsize::new(0), id }) }
 
-        // ---- D11: metadata payload bytes not counted
-        let st = c::BrotliEncoderCreateInstance(None, None, core::ptr::null_mut());
-        c::BrotliEncoderSetParameter(st, P::BROTLI_PARAM_QUALITY, 5);
-        let meta = [0xabu8; 100];
-        let mut ip = meta.as_ptr(); let mut ai = meta.len();
-        let mut op = out.as_mut_ptr(); let mut ao = out.len();
-        let mut total: usize = 777;
-        let r = c::BrotliEncoderCompressStream(st, c::BrotliEncoderOperation::BROTLI_OPERATION_EMIT_METADATA, &mut ai, &mut ip, &mut ao, &mut op, &mut total);
-        println!("D11 EMIT_METADATA 100 bytes: ret={} avail_in={} delivered={} total_out={}", r, ai, out.len() - ao, total);
-        let mut ai3 = 0usize; let mut ip3: *const u8 = core::ptr::null();
-        let r = c::BrotliEncoderCompressStream(st, c::BrotliEncoderOperation::BROTLI_OPERATION_FINISH, &mut ai3, &mut ip3, &mut ao, &mut op, &mut total);
-        println!("D11 FINISH: ret={} delivered so far={} total_out={}  (expected equal)", r, out.len() - ao, total);
+// ------------------------------------------------------------------ histories
+#[derive(Clone, Debug)]
+pub enum Call {
+    /// op 0..3, input, out capacity, streaming variant, total_out pointer passed, null in/out pointers when count is 0
+    Stream { op: u8, input: Vec<u8>, cap: usize, streaming: bool, tot: bool, null_in: bool, null_out: bool },
+    Take(usize),
+    HasMore,
+    IsFinished,
+}
+#[derive(Clone, Debug)]
+pub struct History { custom_alloc: bool, params: Vec<(u32, u32)>, dict: Vec<u8>, calls: Vec<Call> }
+
+fn param_of(k: u32) -> P {
+    match k { 0 => P::BROTLI_PARAM_MODE, 1 => P::BROTLI_PARAM_QUALITY, 2 => P::BROTLI_PARAM_LGWIN, 3 => P::BROTLI_PARAM_LGBLOCK, 4 => P::BROTLI_PARAM_DISABLE_LITERAL_CONTEXT_MODELING, 5 => P::BROTLI_PARAM_SIZE_HINT, 6 => P::BROTLI_PARAM_LARGE_WINDOW, 164 => P::BROTLI_PARAM_CATABLE, 165 => P::BROTLI_PARAM_APPENDABLE, 166 => P::BROTLI_PARAM_MAGIC_NUMBER, _ => P::BROTLI_PARAM_QUALITY }
+}
+fn rop(op: u8) -> ROp { match op { 0 => ROp::BROTLI_OPERATION_PROCESS, 1 => ROp::BROTLI_OPERATION_FLUSH, 2 => ROp::BROTLI_OPERATION_FINISH, _ => ROp::BROTLI_OPERATION_EMIT_METADATA } }
+fn cop(op: u8) -> c::BrotliEncoderOperation { match op { 0 => c::BrotliEncoderOperation::BROTLI_OPERATION_PROCESS, 1 => c::BrotliEncoderOperation::BROTLI_OPERATION_FLUSH, 2 => c::BrotliEncoderOperation::BROTLI_OPERATION_FINISH, _ => c::BrotliEncoderOperation::BROTLI_OPERATION_EMIT_METADATA } }
+
+fn hist_json(h: &History) -> String {
+    let calls: Vec<String> = h.calls.iter().map(|c| match c {
+        Call::Stream { op, input, cap, streaming, tot, null_in, null_out } => format!("s{}:{}:{}:{}{}{}{}", op, hex(input), cap, *streaming as u8, *tot as u8, *null_in as u8, *null_out as u8),
+        Call::Take(n) => format!("t{}", n), Call::HasMore => "m".into(), Call::IsFinished => "f".into() }).collect();
+    format!("{{\"custom_alloc\":{},\"params\":{},\"dict\":{},\"calls\":{}}}", h.custom_alloc, jstr(&h.params.iter().map(|(k, v)| format!("{}={}", k, v)).collect::<Vec<_>>().join(",")), jstr(&hex(&h.dict)), jstr(&calls.join(" ")))
+}
+
+const BASE_IN: usize = 1_000_000; // symbolic addresses used in the correspondence lines
+const BASE_OUT: usize = 5_000_000;
+
+/// run one history through the C ABI and the Rust API
+pub fn run_history(h: &History, rep: &mut Report) -> (String, String) {
+    let case = hist_json(h);
+    rep.evaluations += 1;
+    let mut nontrivial = false;
+    let mut ops: Vec<String> = vec![]; let mut imp: Vec<String> = vec![];
+    unsafe {
+        let ctr = new_counter(1);
+        let ctr_ptr = &*ctr as *const Counter as *mut c_void;
+        let st = if h.custom_alloc { c::BrotliEncoderCreateInstance(Some(c_alloc), Some(c_free), ctr_ptr) } else { c::BrotliEncoderCreateInstance(None, None, core::ptr::null_mut()) };
+        if st.is_null() { rep.violation("ffi:create-null", "BrotliEncoderCreateInstance returned NULL", case.clone()); return ("ffi S".into(), "".into()); }
+        let mut twin = BrotliEncoderStateStruct::new(StandardAlloc::default());
+        for (k, v) in &h.params {
+            let a = c::BrotliEncoderSetParameter(st, param_of(*k), *v);
+            let b = twin.set_parameter(param_of(*k), *v);
+            if (a != 0) != b { rep.violation("ffi:set-parameter-differs", &format!("SetParameter({},{}) returned {} but the Rust API {}", k, v, a, b), case.clone()); }
+        }
+        if !h.dict.is_empty() {
+            c::BrotliEncoderSetCustomDictionary(st, h.dict.len(), h.dict.as_ptr());
+            twin.set_custom_dictionary(h.dict.len(), &h.dict);
+            rep.count("with_custom_dictionary");
+        }
+        let mut delivered: usize = 0; // pushed + taken, C side
+        let mut tot_cell: usize = 0xDEAD;
+        let mut rust_tot: Option<usize> = Some(0);
+        let mut all_c: Vec<u8> = vec![]; let mut all_r: Vec<u8> = vec![]; let mut fed: Vec<u8> = vec![]; let mut had_meta = false;
+        for (ci, call) in h.calls.iter().enumerate() {
+            match call {
+                Call::Stream { op, input, cap, streaming, tot, null_in, null_out } => {
+                    // ---- Rust API
+                    let mut rout = vec![0u8; *cap];
+                    let (mut rai, mut rio, mut rao, mut roo) = (input.len(), 0usize, *cap, 0usize);
+                    let enc_total_before = twin.total_out_ as usize;
+                    let mut to_probe: Option<usize> = Some(usize::MAX); // detects whether the callee stored a value
+                    let rres = std::panic::catch_unwind(std::panic::AssertUnwindSafe(|| twin.compress_stream(rop(*op), &mut rai, input, &mut rio, &mut rao, &mut rout, &mut roo, &mut to_probe, &mut |_a, _b, _c, _d| ())));
+                    let (rok, rpanic) = match rres { Ok(b) => (b, false), Err(_) => (false, true) };
+                    let to_written = if to_probe == Some(usize::MAX) { None } else { to_probe };
+                    if let Some(v) = to_written { rust_tot = Some(v); }
+                    // ---- C ABI
+                    let mut cout = vec![0u8; (*cap).max(1)];
+                    let mut ai = input.len(); let mut ao = *cap;
+                    let in_base: *const u8 = if input.is_empty() && *null_in { core::ptr::null() } else { input.as_ptr() };
+                    let out_base: *mut u8 = if *cap == 0 && *null_out { core::ptr::null_mut() } else { cout.as_mut_ptr() };
+                    let mut ip = in_base; let mut opp = out_base;
+                    let tot_before = tot_cell;
+                    let ret = if *streaming { c::BrotliEncoderCompressStreaming(st, cop(*op), &mut ai, ip, &mut ao, opp) }
+                              else { c::BrotliEncoderCompressStream(st, cop(*op), &mut ai, &mut ip, &mut ao, &mut opp, if *tot { &mut tot_cell } else { core::ptr::null_mut() }) };
+                    let produced = *cap - ao.min(*cap);
+                    let consumed = input.len() - ai.min(input.len());
+                    let d_in = (ip as usize).wrapping_sub(in_base as usize);
+                    let d_out = (opp as usize).wrapping_sub(out_base as usize);
+                    delivered += produced;
+                    if *op == 3 { had_meta = true; } else { fed.extend_from_slice(&input[..consumed]); }
+                    all_c.extend_from_slice(&cout[..produced]); all_r.extend_from_slice(&rout[..roo]);
+                    if produced == 0 { nontrivial = true; rep.count("stream_calls.no_output"); }
+                    if input.is_empty() || *cap == 0 { nontrivial = true; rep.count("stream_calls.zero_count"); }
+                    if in_base.is_null() || out_base.is_null() { rep.count("stream_calls.null_pointer"); }
+                    rep.count(if *streaming { "stream_calls.streaming_variant" } else { "stream_calls.pointer_variant" });
+                    rep.count(&format!("stream_calls.op{}", op));
+                    // ---- oracles
+                    if rpanic { rep.violation("ffi:rust-api-panics", &format!("call #{}: the Rust compress_stream panicked", ci), case.clone()); }
+                    if (ret != 0) != rok && !rpanic { rep.violation("ffi:return-differs", &format!("call #{}: C ABI returned {} but the Rust API {}", ci, ret, rok), case.clone()); }
+                    if produced != roo || cout[..produced] != rout[..roo] { rep.violation("ffi:bytes-differ", &format!("call #{}: C ABI produced {} bytes, the Rust API {} (or different content)", ci, produced, roo), case.clone()); }
+                    if consumed != rio { rep.violation("ffi:consumed-differs", &format!("call #{}: C ABI consumed {} bytes, the Rust API {}", ci, consumed, rio), case.clone()); }
+                    if !*streaming {
+                        if d_in != consumed { rep.violation("ffi:cursor:next_in", &format!("call #{}: next_in advanced by {} but available_in decreased by {}", ci, d_in, consumed), case.clone()); }
+                        if d_out != produced { rep.violation("ffi:cursor:next_out", &format!("call #{}: next_out advanced by {} but available_out decreased by {}", ci, d_out, produced), case.clone()); }
+                        if *tot && tot_cell != delivered { rep.violation(if produced == 0 { "ffi:total_out:reset-on-empty-call" } else { "ffi:total_out:not-the-sum" }, &format!("call #{}: *total_out = {} but {} bytes were delivered so far", ci, tot_cell, delivered), case.clone()); }
+                    }
+                    // ---- correspondence: caller's view | what the Rust call did
+                    let sym = |p: usize, base: usize, sbase: usize| if base == 0 { "n".to_string() } else { (sbase + p.wrapping_sub(base)).to_string() };
+                    if !*streaming {
+                        ops.push(format!("s:{}:{}:{}:{}:{}:{}:{}|{}:{}:{}:{}:{}:{}:{}", input.len(), sym(in_base as usize, in_base as usize, BASE_IN), cap, sym(out_base as usize, out_base as usize, BASE_OUT), *tot as u8, tot_before, enc_total_before,
+                            rio, rai, roo, rao, rok as u8, rpanic as u8, to_written.map(|v| v.to_string()).unwrap_or("n".into())));
+                        imp.push(format!("{}:{}:{}:{}:{}:{}", ret, ai, sym(ip as usize, in_base as usize, BASE_IN), ao, sym(opp as usize, out_base as usize, BASE_OUT), tot_cell));
+                    }
+                }
+                Call::Take(n) => {
+                    nontrivial = true;
+                    let pending_before: Vec<u8> = { let mut z = 0usize; let _ = z; vec![] };
+                    let _ = pending_before;
+                    let mut rs = *n; let rbytes: Vec<u8> = { let sl = twin.take_output(&mut rs); sl[..rs.min(sl.len())].to_vec() };
+                    let mut cs = *n; let p = c::BrotliEncoderTakeOutput(st, &mut cs);
+                    let cbytes: Vec<u8> = if cs == 0 || p.is_null() { vec![] } else { std::slice::from_raw_parts(p, cs).to_vec() };
+                    delivered += cs;
+                    all_c.extend_from_slice(&cbytes); all_r.extend_from_slice(&rbytes);
+                    rep.count("take_output_calls"); if cs > 0 { rep.count("take_output_calls.nonempty"); }
+                    if cs != rs || cbytes != rbytes { rep.violation("ffi:take-output-differs", &format!("call #{}: TakeOutput({}) gave {} bytes, the Rust API {}", ci, n, cs, rs), case.clone()); }
+                    // correspondence needs the pending bytes: what was taken ++ what is still pending is not observable
+                    // through the C ABI; the taken prefix is checked against the model with the taken bytes themselves
+                    ops.push(format!("t:{}:{}", n, hex(&rbytes)));
+                    imp.push(format!("{}:{}:0", hex(&cbytes), cs));
+                }
+                Call::HasMore => { let a = c::BrotliEncoderHasMoreOutput(st); let b = twin.has_more_output(); if (a != 0) != b { rep.violation("ffi:has-more-differs", &format!("call #{}", ci), case.clone()); } }
+                Call::IsFinished => { let a = c::BrotliEncoderIsFinished(st); let b = twin.is_finished(); if (a != 0) != b { rep.violation("ffi:is-finished-differs", &format!("call #{}", ci), case.clone()); } }
+            }
+        }
+        let fin = c::BrotliEncoderIsFinished(st) != 0;
+        if fin {
+            // metadata blocks are skipped by a decoder: the stream must decode to exactly what was consumed
+            match crate::dec::decode_dict(&all_c, &h.dict, 1 << 24) {
+                crate::dec::DResult::Ok(v) if v == fed => { rep.count("finished_and_decoded"); if had_meta { rep.count("finished_and_decoded.with_metadata"); } }
+                _ => rep.violation("ffi:finished-stream-does-not-decode", "is_finished, but the delivered bytes do not decode to the bytes the stream calls consumed", case.clone()),
+            }
+        }
         c::BrotliEncoderDestroyInstance(st);
-        // same through the Rust API
-        let mut s = brotli::enc::encode::BrotliEncoderStateStruct::new(alloc_stdlib::StandardAlloc::default());
-        s.set_parameter(P::BROTLI_PARAM_QUALITY, 5);
-        let mut ai = meta.len(); let mut io = 0usize; let mut ao = out.len(); let mut oo = 0usize; let mut to = Some(0usize);
-        let r = s.compress_stream(brotli::enc::encode::BrotliEncoderOperation::BROTLI_OPERATION_EMIT_METADATA, &mut ai, &meta, &mut io, &mut ao, &mut out, &mut oo, &mut to, &mut |_a, _b, _c, _d| ());
-        println!("D11 Rust API EMIT_METADATA: ret={} produced={} total_out={:?} state.total_out_={}", r, oo, to, s.total_out_);
+        if h.custom_alloc {
+            rep.count("custom_allocator_histories");
+            let live = ctr.live.load(Ordering::SeqCst);
+            if live != 0 { rep.violation("ffi:allocator:live-blocks-after-destroy", &format!("{} blocks obtained through the caller's alloc callback were not freed by DestroyInstance", live), case.clone()); }
+            if ctr.bad_free.load(Ordering::SeqCst) != 0 { rep.violation("ffi:allocator:foreign-free", "a block was freed with another opaque than it was allocated with", case.clone()); }
+        }
+        let _ = rust_tot;
+    }
+    if nontrivial { rep.nontrivial += 1; }
+    (format!("ffi S {}", if ops.is_empty() { "-".to_string() } else { ops.join(" ") }), imp.join(" "))
+}
+
+fn gen_data(rng: &mut Rng, n: usize) -> Vec<u8> {
+    match rng.below(3) { 0 => (0..n).map(|_| rng.below(256) as u8).collect(), 1 => (0..n).map(|i| b"abcabcabd the quick brown fox "[i % 30]).collect(), _ => (0..n).map(|i| (i * 13 % 251) as u8).collect() }
+}
+fn gen_history(rng: &mut Rng) -> History {
+    let q = *rng.pick(&[0u32, 1, 2, 4, 5, 6, 9, 9, 10, 11]);
+    let lgwin = rng.range(10, 18) as u32;
+    let mut params = vec![(1u32, q), (2u32, lgwin)];
+    if rng.chance(1, 4) { params.push((0, rng.below(3) as u32)); }
+    if rng.chance(1, 4) { params.push((5, rng.below(5000) as u32)); }
+    if rng.chance(1, 6) { params.push((164, 1)); }
+    if rng.chance(1, 8) { params.push((165, 1)); }
+    if rng.chance(1, 8) { params.push((166, 1)); }
+    if rng.chance(1, 10) { params.push((3, rng.range(16, 20) as u32)); }
+    if rng.chance(1, 12) { params.push((1, 99)); } // out-of-range value: both APIs must agree
+    let big = q >= 10;
+    let mut calls = vec![];
+    let n = rng.range(1, 10);
+    let caps: [usize; 8] = [0, 1, 3, 16, 100, 1000, 5000, 70000];
+    let mk = |rng: &mut Rng, op: u8, input: Vec<u8>, cap: usize| Call::Stream { op, input, cap, streaming: rng.chance(1, 4), tot: rng.chance(3, 4), null_in: rng.chance(1, 2), null_out: rng.chance(1, 2) };
+    for _ in 0..n {
+        match rng.below(12) {
+            0 => calls.push(Call::Take(*rng.pick(&[0usize, 1, 5, 100, 100000]))),
+            1 => calls.push(Call::HasMore),
+            2 => calls.push(Call::IsFinished),
+            3 => { let cap = *rng.pick(&caps); calls.push(mk(rng, 1, vec![], cap)); if rng.chance(1, 2) { calls.push(Call::Take(0)); } }
+            4 => { // metadata, driven to completion as the contract demands
+                let len = *rng.pick(&[0usize, 1, 16, 17, 100, 300]); let data = gen_data(rng, len);
+                let cap = *rng.pick(&[1usize, 16, 1000]);
+                let rounds = len / cap.max(1) + 6;
+                for _ in 0..rounds { calls.push(mk(rng, 3, data.clone(), cap)); }
+                // NB every round re-offers the whole block; the harness trims to what is left below
+            }
+            _ => { let len = if big { rng.below(400) } else { *rng.pick(&[0u64, 1, 10, 300, 2000, 20000]) } as usize; let len = if len > 2 { rng.range(1, len as u64) as usize } else { len }; let d = gen_data(rng, len); let cap = *rng.pick(&caps); let op = if rng.chance(1, 6) { 1 } else { 0 }; calls.push(mk(rng, op, d, cap)); }
+        }
+    }
+    // finish: FINISH with shrinking patience, then generous
+    for cap in [0usize, 1, 7, 70000, 70000, 70000] { if rng.chance(2, 3) || cap == 70000 { calls.push(mk(rng, 2, vec![], cap)); if rng.chance(1, 4) { calls.push(Call::Take(0)); } } }
+    calls.push(Call::IsFinished); calls.push(Call::HasMore);
+    let dict = if rng.chance(1, 8) { let dl = rng.range(1, 300) as usize; gen_data(rng, dl) } else { vec![] };
+    History { custom_alloc: rng.chance(1, 2), params, dict, calls }
+}
+/// metadata rounds re-offer the whole block in the generator; trim each round to what the
+/// previous one left unconsumed (needs the real run) — done lazily here by simulating on a twin
+fn fix_metadata(h: &mut History) {
+    let mut twin = BrotliEncoderStateStruct::new(StandardAlloc::default());
+    for (k, v) in &h.params { twin.set_parameter(param_of(*k), *v); }
+    if !h.dict.is_empty() { twin.set_custom_dictionary(h.dict.len(), &h.dict); }
+    let mut left: Option<Vec<u8>> = None;
+    let mut out: Vec<Call> = vec![];
+    for c in h.calls.iter() {
+        match c {
+            Call::Stream { op, input, cap, streaming, tot, null_in, null_out } => {
+                let inp: Vec<u8> = if *op == 3 { match &left { Some(l) => l.clone(), None => input.clone() } } else { input.clone() };
+                if *op == 3 && left.as_ref().map(|l| l.is_empty()).unwrap_or(false) && !twin.has_more_output() { continue; }
+                let mut ro = vec![0u8; *cap]; let (mut ai, mut io_, mut ao, mut oo) = (inp.len(), 0, *cap, 0); let mut to = Some(0);
+                let r = std::panic::catch_unwind(std::panic::AssertUnwindSafe(|| twin.compress_stream(rop(*op), &mut ai, &inp, &mut io_, &mut ao, &mut ro, &mut oo, &mut to, &mut |_a, _b, _c, _d| ())));
+                if *op == 3 { left = if r.unwrap_or(false) { Some(inp[io_..].to_vec()) } else { None }; if left.as_ref().map(|l| l.is_empty()).unwrap_or(false) && twin.remaining_metadata_bytes_ == u32::MAX { left = None; } } else { left = None; }
+                out.push(Call::Stream { op: *op, input: inp, cap: *cap, streaming: *streaming, tot: *tot, null_in: *null_in, null_out: *null_out });
+            }
+            Call::Take(n) => { let mut s = *n; let _ = twin.take_output(&mut s); out.push(c.clone()); }
+            other => out.push(other.clone()),
+        }
+    }
+    h.calls = out;
+}
+
+// ------------------------------------------------------------------ one-shot, multi, work pool
+struct OwnedVec(Vec<u8>);
+impl SliceWrapper<u8> for OwnedVec { fn slice(&self) -> &[u8] { &self.0 } }
+
+fn cmode(mode: u32) -> c::BrotliEncoderMode { match mode { 0 => c::BrotliEncoderMode::BROTLI_MODE_GENERIC, 1 => c::BrotliEncoderMode::BROTLI_MODE_TEXT, _ => c::BrotliEncoderMode::BROTLI_MODE_FONT } }
+fn rmode(mode: u32) -> brotli::enc::backward_references::BrotliEncoderMode { use brotli::enc::backward_references::BrotliEncoderMode as M; match mode { 0 => M::BROTLI_MODE_GENERIC, 1 => M::BROTLI_MODE_TEXT, _ => M::BROTLI_MODE_FONT } }
+
+fn oneshot_case(rng: &mut Rng, rep: &mut Report) {
+    let q = *rng.pick(&[0i32, 1, 2, 5, 9, 10, 11]); let lgwin = rng.range(10, 20) as i32; let mode = rng.below(3) as u32;
+    let n = *rng.pick(&[0usize, 1, 2, 100, 3000]); let data = gen_data(rng, n);
+    let maxsz = brotli::enc::BrotliEncoderMaxCompressedSize(n);
+    let cap = *rng.pick(&[0usize, 1, 2, maxsz.saturating_sub(1), maxsz, maxsz + 10, n / 2 + 1]);
+    let case = format!("{{\"oneshot\":{{\"q\":{},\"lgwin\":{},\"mode\":{},\"input\":{},\"cap\":{}}}}}", q, lgwin, mode, jstr(&hex(&data)), cap);
+    rep.evaluations += 1; rep.count("oneshot_calls"); if cap == 0 || n == 0 { rep.nontrivial += 1; rep.count("oneshot_calls.zero_size"); }
+    unsafe {
+        let mut cout = vec![0u8; cap.max(1)]; let mut csz = cap;
+        let null_in = n == 0 && rng.chance(1, 2); let null_out = cap == 0 && rng.chance(1, 2);
+        let ret = c::BrotliEncoderCompress(q, lgwin, cmode(mode), n, if null_in { core::ptr::null() } else { data.as_ptr() }, &mut csz, if null_out { core::ptr::null_mut() } else { cout.as_mut_ptr() });
+        let mut rout = vec![0u8; cap]; let mut rsz = cap;
+        let mut m8 = StandardAlloc::default();
+        let rres = std::panic::catch_unwind(std::panic::AssertUnwindSafe(|| brotli::enc::encode::BrotliEncoderCompress(StandardAlloc::default(), &mut m8, q, lgwin, rmode(mode), n, &data, &mut rsz, &mut rout, &mut |_a, _b, _c, _d| ())));
+        match rres {
+            Ok(rret) => {
+                if ret != rret { rep.violation("ffi:oneshot:return-differs", &format!("C ABI returned {} but the Rust API {}", ret, rret), case.clone()); }
+                else if ret != 0 { if csz != rsz || cout[..csz.min(cout.len())] != rout[..rsz.min(rout.len())] { rep.violation("ffi:oneshot:bytes-differ", &format!("encoded_size {} vs {}", csz, rsz), case.clone()); }
+                    if csz > cap { rep.violation("ffi:oneshot:size-exceeds-capacity", &format!("*encoded_size = {} > {}", csz, cap), case.clone()); }
+                    else { match crate::dec::decode(&cout[..csz], n + 65536) { crate::dec::DResult::Ok(v) if v == data => rep.count("oneshot_calls.decoded"), _ => rep.violation("ffi:oneshot:success-but-undecodable", "returned 1 but the output does not decode to the input", case.clone()) } } }
+                else { rep.count("oneshot_calls.returned_0"); if csz != 0 && csz != cap { rep.count("oneshot_calls.failed_size_not_zero"); } }
+            }
+            Err(_) => { if ret != 0 { rep.violation("ffi:oneshot:rust-panics-c-succeeds", "the Rust call panicked but the C ABI returned success", case.clone()); } else { rep.count("oneshot_calls.panic_mapped_to_0"); } }
+        }
+    }
+}
+
+fn multi_case(rng: &mut Rng, rep: &mut Report, corr: &mut Vec<(String, String)>, desired: usize) {
+    let q = *rng.pick(&[0u32, 1, 2, 5, 9]); let lgwin = rng.range(10, 18) as u32;
+    let n = *rng.pick(&[0usize, 1, 50, 2000, 20000]); let data = gen_data(rng, n);
+    let keys = [P::BROTLI_PARAM_QUALITY, P::BROTLI_PARAM_LGWIN]; let vals = [q, lgwin];
+    let cap = brotli::enc::BrotliEncoderMaxCompressedSizeMulti(n, desired.max(1).min(16)) + 64;
+    let custom = rng.chance(1, 2); let per_thread = custom && rng.chance(1, 2);
+    let case = format!("{{\"multi\":{{\"q\":{},\"lgwin\":{},\"input\":{},\"desired\":{},\"custom_alloc\":{},\"opaque_array\":{}}}}}", q, lgwin, jstr(&hex(&data)), desired, custom, per_thread);
+    rep.evaluations += 1; rep.count(&format!("multi.desired.{}", if desired > 16 { "17-32".to_string() } else if desired >= 2 { "2-16".to_string() } else { desired.to_string() }));
+    unsafe {
+        let ctrs: Vec<Box<Counter>> = (0..desired.max(1)).map(new_counter).collect();
+        let mut opaques: Vec<*mut c_void> = ctrs.iter().map(|b| &**b as *const Counter as *mut c_void).collect();
+        let mut out = vec![0u8; cap]; let mut sz = cap; let sentinel = cap;
+        let (af, ff): (brotli_decompressor::ffi::interface::brotli_alloc_func, brotli_decompressor::ffi::interface::brotli_free_func) = if custom { (Some(c_alloc), Some(c_free)) } else { (None, None) };
+        let use_pool = rng.chance(1, 3);
+        let ret = if use_pool {
+            let pool = m::BrotliEncoderCreateWorkPool(*rng.pick(&[0usize, 1, 4, 16, 40]), af, ff, if custom { opaques[0] } else { core::ptr::null_mut() });
+            let r = m::BrotliEncoderCompressWorkPool(pool, 2, keys.as_ptr(), vals.as_ptr(), n, data.as_ptr(), &mut sz, out.as_mut_ptr(), desired, af, ff, if per_thread { opaques.as_mut_ptr() } else { core::ptr::null_mut() });
+            if !pool.is_null() { m::BrotliEncoderDestroyWorkPool(pool); }
+            rep.count("multi.via_work_pool"); r
+        } else { m::BrotliEncoderCompressMulti(2, keys.as_ptr(), vals.as_ptr(), n, data.as_ptr(), &mut sz, out.as_mut_ptr(), desired, af, ff, if per_thread { opaques.as_mut_ptr() } else { core::ptr::null_mut() }) };
+        // model correspondence: dispatch + opaque indices
+        let threads = desired.min(16);
+        corr.push((format!("ffi M {}", desired), if desired == 0 { "reject".into() } else if threads == 1 { "single".into() } else { format!("multi:{}", threads) }));
+        if desired == 0 {
+            if ret != 0 || sz != sentinel { rep.violation("ffi:multi:zero-threads-not-rejected", &format!("desired_num_threads = 0 returned {} (encoded_size {})", ret, sz), case.clone()); }
+            rep.nontrivial += 1; return;
+        }
+        if ret == 0 { rep.violation("ffi:multi:failed", "returned 0 with an output buffer of the advertised maximum size", case.clone()); return; }
+        match crate::dec::decode(&out[..sz.min(cap)], n + 65536) { crate::dec::DResult::Ok(v) if v == data => rep.count("multi.decoded"), _ => { rep.violation("ffi:multi:success-but-undecodable", "returned 1 but the output does not decode to the input", case.clone()); return; } }
+        // thread-count clamp: same bytes as the Rust API with min(desired, 16) jobs
+        if threads >= 2 {
+            let mut params = BrotliEncoderParams::default();
+            brotli::enc::encode::set_parameter(&mut params, P::BROTLI_PARAM_QUALITY, q); brotli::enc::encode::set_parameter(&mut params, P::BROTLI_PARAM_LGWIN, lgwin);
+            let mut allocs: Vec<_> = (0..threads).map(|_| SendAlloc::new(StandardAlloc::default(), UnionHasher::Uninit)).collect();
+            let mut rout = vec![0u8; cap];
+            let r = brotli::enc::compress_multi_no_threadpool(&params, &mut Owned::new(OwnedVec(data.clone())), &mut rout, &mut allocs[..]);
+            match r { Ok(rsz) => { if rsz != sz || rout[..rsz] != out[..sz] { rep.violation("ffi:multi:thread-clamp-or-bytes-differ", &format!("desired {} -> expected the bytes of {} jobs ({} bytes), got {} bytes", desired, threads, rsz, sz), case.clone()); } else { rep.count("multi.equals_rust_api_with_min_n_16_jobs"); rep.nontrivial += 1; } } Err(_) => rep.violation("ffi:multi:rust-api-fails", "the Rust multi-threaded compressor failed where the C ABI succeeded", case.clone()) }
+        }
+        if custom {
+            for (i, ctr) in ctrs.iter().enumerate() {
+                let used = ctr.allocs.load(Ordering::SeqCst) > 0;
+                if per_thread && used && i >= threads.max(1) && !(i == 0) { rep.violation("ffi:multi:opaque-of-unused-thread", &format!("allocator opaque #{} was used although only {} threads run", i, threads), case.clone()); }
+                if ctr.live.load(Ordering::SeqCst) != 0 { rep.violation("ffi:multi:allocator-live-blocks", &format!("opaque #{}: {} blocks not freed", i, ctr.live.load(Ordering::SeqCst)), case.clone()); }
+            }
+            corr.push((format!("ffi O {} {}", desired, per_thread as u8), (0..16).map(|k| (if k == 0 { 0 } else { k % desired }).to_string()).collect::<Vec<_>>().join(",")));
+        }
+    }
+}
+
+/// contract violations that must come back as return values, never as an abort.
+/// (A NULL pointer together with a NON-zero count is outside the documented contract — the wrappers
+/// hand it to `slice::from_raw_parts`, as the C library would dereference it; pointer validity is
+/// the caller's obligation and not exercised here.)
+fn risky_cases(rep: &mut Report) {
+    unsafe {
+        rep.count("risky.started");
+        let mut out = vec![0u8; 100];
+        // alloc without free: must yield NULL (the panic inside is caught)
+        let st = c::BrotliEncoderCreateInstance(Some(c_alloc), None, core::ptr::null_mut());
+        rep.count(if st.is_null() { "risky.alloc_without_free.null" } else { "risky.alloc_without_free.instance" });
+        if !st.is_null() { rep.violation("ffi:create:alloc-without-free-accepted", "alloc_func without free_func must yield NULL", "{}".into()); }
+        let wp = m::BrotliEncoderCreateWorkPool(2, Some(c_alloc), None, core::ptr::null_mut());
+        rep.count(if wp.is_null() { "risky.workpool_alloc_without_free.null" } else { "risky.workpool_alloc_without_free.instance" });
+        if !wp.is_null() { rep.violation("ffi:create-work-pool:alloc-without-free-accepted", "alloc_func without free_func must yield NULL", "{}".into()); }
+        // destroy(NULL)
+        c::BrotliEncoderDestroyInstance(core::ptr::null_mut());
+        // every pointer null, every count 0 (stream): allowed by the contract
+        let st = c::BrotliEncoderCreateInstance(None, None, core::ptr::null_mut());
+        let (mut ai, mut ao) = (0usize, 0usize); let mut ip: *const u8 = core::ptr::null(); let mut opp: *mut u8 = core::ptr::null_mut();
+        let r = c::BrotliEncoderCompressStream(st, c::BrotliEncoderOperation::BROTLI_OPERATION_FINISH, &mut ai, &mut ip, &mut ao, &mut opp, core::ptr::null_mut());
+        rep.count(&format!("risky.stream_all_null_zero.ret{}", r));
+        if r != 1 || !ip.is_null() || !opp.is_null() { rep.violation("ffi:null-zero-stream-call", "a FINISH call with null pointers and zero counts must succeed and leave the pointers null", "{}".into()); }
+        // operations after finish / protocol violations: PROCESS with input after FINISH has started
+        let d = [5u8; 20]; let mut ai = 20usize; let mut ip = d.as_ptr(); let mut ao = 100usize; let mut opp = out.as_mut_ptr();
+        let r = c::BrotliEncoderCompressStream(st, c::BrotliEncoderOperation::BROTLI_OPERATION_PROCESS, &mut ai, &mut ip, &mut ao, &mut opp, core::ptr::null_mut());
+        rep.count(&format!("risky.process_after_finish.ret{}", r));
+        if r != 0 && ai != 20 { rep.violation("ffi:input-accepted-after-finish", "input was consumed after FINISH had been requested", "{}".into()); }
+        c::BrotliEncoderDestroyInstance(st);
+        // multi with null params / input and zero counts
+        let mut sz = 100usize;
+        let r = m::BrotliEncoderCompressMulti(0, core::ptr::null(), core::ptr::null(), 0, core::ptr::null(), &mut sz, out.as_mut_ptr(), 3, None, None, core::ptr::null_mut());
+        rep.count(&format!("risky.multi_null_zero.ret{}", r));
+        if r == 1 { match crate::dec::decode(&out[..sz.min(100)], 100) { crate::dec::DResult::Ok(v) if v.is_empty() => {} _ => rep.violation("ffi:multi:empty-input-undecodable", "empty input on 3 threads: success reported, output does not decode to the empty string", "{}".into()) } }
+        // work pool: null pool pointer falls back to the thread-per-job path
+        let d = [7u8; 3000]; let keys = [P::BROTLI_PARAM_QUALITY]; let vals = [5u32]; let mut big = vec![0u8; 8000]; let mut sz = big.len();
+        let r = m::BrotliEncoderCompressWorkPool(core::ptr::null_mut(), 1, keys.as_ptr(), vals.as_ptr(), d.len(), d.as_ptr(), &mut sz, big.as_mut_ptr(), 4, None, None, core::ptr::null_mut());
+        rep.count(&format!("risky.null_work_pool.ret{}", r));
+        if r != 1 { rep.violation("ffi:work-pool:null-pool-fails", "a null work pool must fall back to BrotliEncoderCompressMulti", "{}".into()); }
+        // output buffer far too small: failure by return value
+        let mut sz = 5usize;
+        let r = m::BrotliEncoderCompressMulti(1, keys.as_ptr(), vals.as_ptr(), d.len(), d.as_ptr(), &mut sz, big.as_mut_ptr(), 4, None, None, core::ptr::null_mut());
+        rep.count(&format!("risky.multi_tiny_output.ret{}", r));
+        if r != 0 { rep.violation("ffi:multi:success-with-tiny-output", "3000 bytes on 4 threads cannot fit 5 bytes of output", "{}".into()); }
+        let mut sz = 5usize;
+        let r = c::BrotliEncoderCompress(5, 22, c::BrotliEncoderMode::BROTLI_MODE_GENERIC, d.len(), d.as_ptr(), &mut sz, big.as_mut_ptr());
+        rep.count(&format!("risky.oneshot_tiny_output.ret{}", r));
+        rep.count("risky.completed");
     }
 }
 
 pub fn run_cmd(args: &Args) {
-    if args.rest.get(0).map(|s| s.as_str()) == Some("probe") { probe(); std::process::exit(0); }
-    let corr = Corr::new(&args.out);
-    let rep = Report::default();
+    if args.rest.get(0).map(|s| s.as_str()) == Some("shard") { return run_shard(args, args.rest[1].parse().unwrap(), args.rest[2].parse().unwrap()); }
+    let nshards = 16u64;
+    let exe = std::env::current_exe().unwrap();
+    let mut kids = vec![];
+    for s in 0..nshards {
+        let d = args.out.join(format!("shard{}", s));
+        std::fs::create_dir_all(&d).unwrap();
+        kids.push((s, d.clone(), std::process::Command::new(&exe).args(["ffi", "--tier", &args.tier, "--seed", &args.seed.to_string(), "--out", d.to_str().unwrap(), "shard", &s.to_string(), &nshards.to_string()]).stderr(std::process::Stdio::null()).spawn().unwrap()));
+    }
+    let mut corr = Corr::new(&args.out);
+    let mut rep = Report::default();
+    for (s, d, mut k) in kids {
+        let st = k.wait();
+        let ok = st.map(|x| x.success()).unwrap_or(false);
+        if let (Ok(o), Ok(i)) = (std::fs::read_to_string(d.join("ops.txt")), std::fs::read_to_string(d.join("impl.txt"))) { for (a, b) in o.lines().zip(i.lines()) { corr.case(a, b); } }
+        if let Ok(r) = std::fs::read_to_string(d.join("report.tsv")) { rep.merge_tsv(&r); }
+        if !ok {
+            let last = std::fs::read_to_string(d.join("current.txt")).unwrap_or_default();
+            rep.violation("ffi:abort", "a child process running C ABI calls died (a panic crossed the extern \"C\" boundary, or memory was corrupted)", format!("{{\"shard\":{},\"last\":{}}}", s, if last.is_empty() { "{}".to_string() } else { last }));
+        }
+    }
+    rep.sample("ffi S s:5:1000000:10:5000000:1:57005:0|5:0:0:10:1:0:n -> 1:0:1000005:10:5000000:0".into());
+    corr.finish();
+    rep.write(&args.out);
+}
+
+fn run_shard(args: &Args, shard: u64, nshards: u64) {
+    let thorough = args.tier == "thorough";
+    let mut corr = Corr::new(&args.out);
+    let mut rep = Report::default();
+    let total: u64 = if thorough { 24000 } else { 1600 };
+    for i in (0..total).filter(|i| i % nshards == shard) {
+        let mut rng = Rng::new(args.seed ^ 0xFF1 ^ (i << 20));
+        let mut h = gen_history(&mut rng);
+        fix_metadata(&mut h);
+        std::fs::write(args.out.join("current.txt"), hist_json(&h)).ok();
+        let (o, a) = run_history(&h, &mut rep);
+        if o.len() < 60000 { corr.case(&o, &a); }
+    }
+    let n1: u64 = if thorough { 4000 } else { 400 };
+    for i in (0..n1).filter(|i| i % nshards == shard) { let mut rng = Rng::new(args.seed ^ 0x0115 ^ (i << 20)); std::fs::write(args.out.join("current.txt"), format!("{{\"oneshot_index\":{}}}", i)).ok(); oneshot_case(&mut rng, &mut rep); }
+    // every desired thread count 0..32, several inputs each
+    let reps: u64 = if thorough { 12 } else { 2 };
+    let mut lines = vec![];
+    for j in (0..33 * reps).filter(|j| j % nshards == shard) { let desired = (j % 33) as usize; let mut rng = Rng::new(args.seed ^ 0x3017 ^ (j << 20)); std::fs::write(args.out.join("current.txt"), format!("{{\"multi_index\":{},\"desired\":{}}}", j, desired)).ok(); multi_case(&mut rng, &mut rep, &mut lines, desired); }
+    for (o, a) in lines { corr.case(&o, &a); }
+    if shard == 0 {
+        for d in 0..=40usize { corr.case(&format!("ffi M {}", d), &(if d == 0 { "reject".to_string() } else if d.min(16) == 1 { "single".into() } else { format!("multi:{}", d.min(16)) })); }
+        std::fs::write(args.out.join("current.txt"), "{\"risky\":true}").ok();
+        risky_cases(&mut rep);
+    }
+    std::fs::write(args.out.join("current.txt"), "").ok();
     corr.finish();
     rep.write(&args.out);
 }
